@@ -81,6 +81,8 @@ func checkC15(c *Ctx) Meta {
 	c.Rule("C15-PLACE", "per-directory configuration creates and selects spaces only in the requested directory: the same directory value feeds the fill filter, the disk check and the creation, and reaches the file path of the new plot", 5)
 	c.Rule("C15-REUSE", "indexed spaces are consulted before creation: the fill step precedes the generate step, which runs only when fill reports unfinished; removed spaces stay indexed; the count-based finished flag is a conjunction", 6)
 	c.Rule("C15-BOUND", "a space is selected or created only behind the comparison that keeps the running total within the target (never exceeds); the smallest usable bit length equals the chain library's minimum (shortfall bound)", 5)
+	c.Rule("C15-ACCUM", "running totals are what they claim to be: the per-directory total starts at 0 for every directory of a per-directory request; a free-disk requirement built in a loop is the sum over the loop (its argument is an accumulator, not the last term); a reconfiguration marks every space of the *previous* selection unused before it installs the new one", 4)
+	checkC15Accum(c)
 
 	pkgS := "poc/engine/spacekeeper/capacity"
 	sk := "(*" + pkgCapacity + ".SpaceKeeper)."
@@ -554,4 +556,140 @@ func backSliceAny(vs []ssa.Value) *slice {
 		}
 	}
 	return s
+}
+
+// checkC15Accum: C15-ACCUM.
+func checkC15Accum(c *Ctx) {
+	rule := "C15-ACCUM"
+	for _, pkg := range []string{"poc/engine/spacekeeper/capacity"} {
+		// (1) per-directory totals start at 0
+		if f := c.MustFn(rule, pkg, "(*SpaceKeeper).ConfigureByPath"); f != nil {
+			key := "ConfigureByPath:per-directory-total-starts-at-zero"
+			fills := callsIn(f, pkgCapacity+".fillSpaceListByPathSize")
+			if len(fills) == 0 {
+				c.Bad(rule, key, c.Pos(f.Pos()), "reason=anchor-missing: fillSpaceListByPathSize call")
+			}
+			for _, fl := range fills {
+				g := fl.Call.StaticCallee()
+				idx := -1
+				for i, p := range g.Params {
+					if p.Name() == "currentSize" {
+						idx = i
+					}
+				}
+				if idx < 0 || !blockReentered(f, fl) {
+					c.Bad(rule, key, c.Pos(fl.Pos()), "reason=anchor-missing: currentSize parameter / per-directory loop")
+					continue
+				}
+				if k, ok := strip(fl.Call.Args[idx]).(*ssa.Const); ok && k.Value != nil && k.Value.ExactString() == "0" {
+					c.OK(rule, key, c.Pos(fl.Pos()), "the fill of each directory starts from currentSize = 0")
+				} else {
+					c.Bad(rule, key, c.Pos(fl.Pos()), "the running size handed to the first fill of a directory is carried over from the previous directory: re-used bytes of directory i count against directory i+1, which then falls short of (or creates new spaces beside) what it already holds")
+				}
+			}
+		}
+		// (2) accumulators feeding the free-disk check
+		n := 0
+		for fn := range c.AllFuncs {
+			if pkgOf(fn) != pkgCapacity {
+				continue
+			}
+			for _, chk := range callsIn(fn, "(*"+pkgCapacity+".SpaceKeeper).checkOSDiskSize", pkgCapacity+".checkOSDiskSizeByPath") {
+				arg := chk.Call.Args[len(chk.Call.Args)-1]
+				ph, ok := strip(arg).(*ssa.Phi)
+				if !ok {
+					continue
+				}
+				// a loop-carried value: some edge depends on the phi itself or comes from inside a loop
+				n++
+				key := fmt.Sprintf("%s:disk-requirement-is-a-sum@%s", fn.Name(), accessPath(ph.Edges[0]))
+				key = fn.Name() + ":disk-requirement-is-a-sum"
+				okSum := true
+				carried := false
+				var visit func(p *ssa.Phi, seen map[*ssa.Phi]bool)
+				visit = func(p *ssa.Phi, seen map[*ssa.Phi]bool) {
+					if seen[p] {
+						return
+					}
+					seen[p] = true
+					for _, e := range p.Edges {
+						e = strip(e)
+						if k, isK := e.(*ssa.Const); isK && k.Value != nil {
+							continue
+						}
+						if p2, isP := e.(*ssa.Phi); isP {
+							visit(p2, seen)
+							continue
+						}
+						if bo, isB := e.(*ssa.BinOp); isB && bo.Op == token.ADD {
+							lx, ly := strip(bo.X), strip(bo.Y)
+							inChain := func(v ssa.Value) bool {
+								p3, isP := v.(*ssa.Phi)
+								return isP && seen[p3]
+							}
+							if inChain(lx) || inChain(ly) {
+								carried = true
+								continue
+							}
+						}
+						// a term assigned without adding to the running value
+						if blockReentered(fn, p) {
+							okSum = false
+						}
+					}
+				}
+				visit(ph, map[*ssa.Phi]bool{})
+				if !blockReentered(fn, ph) && !carried {
+					n--
+					continue // not a loop accumulator
+				}
+				if okSum && carried {
+					c.OK(rule, key, c.Pos(chk.Pos()), "the requirement checked is an accumulator: every loop edge adds to the running value")
+				} else {
+					c.Bad(rule, key, c.Pos(chk.Pos()), "the free-disk requirement is overwritten inside the loop instead of added to: only the last bit length visited is checked, so a request beyond the free disk space is accepted and files are created")
+				}
+			}
+		}
+		if n < 2 {
+			c.Bad(rule, "disk-requirement:anchor", "", fmt.Sprintf("reason=anchor-missing: expected the two summed free-disk requirements (count-based and key-based), found %d", n))
+		}
+		// (3) the old selection is marked unused
+		if f := c.MustFn(rule, pkg, "(*SpaceKeeper).applyConfiguredWorkSpaces"); f != nil {
+			key := "applyConfiguredWorkSpaces:previous-selection-marked-unused"
+			var repl ssa.Instruction
+			for _, a := range fieldAccesses(f) {
+				if a.Kind == "store" && a.Field == "workSpaceList" {
+					repl = a.In
+				}
+			}
+			ok := false
+			for _, a := range fieldAccesses(f) {
+				if a.Kind != "store" || a.Field != "using" {
+					continue
+				}
+				k, isK := strip(a.In.(*ssa.Store).Val).(*ssa.Const)
+				if !isK || k.Value == nil || k.Value.ExactString() != "false" {
+					continue
+				}
+				// the space written is an element of the list held in the field (not of the argument)
+				fromField, fromParam := false, false
+				for x := range backSlice(a.Base).vals {
+					if _, fld, _, isF := fieldOfValue(x); isF && fld == "workSpaceList" {
+						fromField = true
+					}
+					if p, isP := x.(*ssa.Parameter); isP && p.Name() == "wsList" {
+						fromParam = true
+					}
+				}
+				if fromField && !fromParam && repl != nil && reach(f, a.In, nil, nil)(repl) && blockReentered(f, a.In) {
+					ok = true
+				}
+			}
+			if ok {
+				c.OK(rule, key, c.Pos(f.Pos()), "every element of sk.workSpaceList gets using = false before the list is replaced")
+			} else {
+				c.Bad(rule, key, c.Pos(f.Pos()), "the spaces of the previous selection are not marked unused before the new selection is installed: after a shrinking reconfiguration the dropped spaces still count as selected (per-directory totals exceed the request; actions on them succeed)")
+			}
+		}
+	}
 }
